@@ -88,7 +88,7 @@ def chunksN (k : Nat) : Nat → Bytes → List Bytes
 inductive Data where
   | val (n : Nat)
   | bin (bs : Bytes)
-  | opaque (bs : Bytes)
+  | raw (bs : Bytes)     -- `AttributeData::Opaque`
   deriving DecidableEq, Repr
 
 structure Attribute where
@@ -129,7 +129,7 @@ def binary (a : Attribute) : Option Bytes :=
   match a.data with
   | .val _ => none
   | .bin b => some b
-  | .opaque b => some b
+  | .raw b => some b
 end Attribute
 
 /-- `Attribute::canonical_flags` (TRANSITIVE = 0x40, OPTIONAL = 0x80). -/
@@ -219,7 +219,7 @@ def decodeAttr (code flags : Nat) (bs : Bytes) : Decoded :=
         | none => if code = 17 ∨ code = 18 then .dropped else .rejected
   | none =>
       if flags / 128 % 2 = 0 then .rejected
-      else if flags / 64 % 2 ≠ 0 then .stored { code := code, flags := flags, data := .opaque bs }
+      else if flags / 64 % 2 ≠ 0 then .stored { code := code, flags := flags, data := .raw bs }
       else .dropped
 
 /-! ## API messages (api/proto/attribute.proto, extcom.proto, nlri.proto) -/
@@ -499,7 +499,7 @@ def fromApi (fx : Fixes) : ApiAttr → Out Attribute
               else .ok { code := code, flags := f, data := .bin value }
           | none =>
               if flags / 128 % 2 = 1 ∧ flags / 64 % 2 = 1 then
-                .ok { code := code, flags := flags, data := .opaque value }
+                .ok { code := code, flags := flags, data := .raw value }
               else .err
       else okOrErr (newWithBin code value)
   | .origin o =>
